@@ -18,6 +18,12 @@ pub struct ZA16 { pub x: u32 }
 
 #[derive(epserde::Epserde, Clone, Copy)]
 #[repr(C)]
+#[repr(align(64))]
+#[zero_copy]
+pub struct ZA64 { pub x: u32 }
+
+#[derive(epserde::Epserde, Clone, Copy)]
+#[repr(C)]
 #[zero_copy]
 pub struct ZUnit {}
 
